@@ -14,12 +14,16 @@ theorem finishTemp_statics (w : World) (d : Nat) (res : Res Unit) :
     (finishTemp w d res).1.statics = w.statics := by
   cases res <;> simp only [finishTemp] <;> (try split) <;> simp [World.put]
 
+theorem finishUtf16_statics (w : World) (d : Nat) (res : Res Unit) :
+    (finishUtf16 w d res).1.statics = w.statics := by
+  cases res <;> simp only [finishUtf16, finishTemp] <;> (try split) <;> simp [World.put]
+
 /-- no operation has write access to the caller's static texts: they are bit-identical after
 every step of every history (a write *through* a static handle is the model's `writeStatic` alarm,
 excluded by `no_ub`, Props/C03) -/
 theorem step_statics (rf : Refuse) (w : World) (op : Op) : (step rf w op).1.statics = w.statics := by
   cases op <;> simp only [step] <;> (repeat' split) <;>
-    simp [World.put, finish_statics, finishTemp_statics]
+    simp [World.put, finish_statics, finishTemp_statics, finishUtf16_statics]
 
 theorem run_statics (rf : Refuse) (w : World) (ops : List Op) : (run rf w ops).statics = w.statics := by
   induction ops generalizing w with
